@@ -609,4 +609,104 @@ theorem Inv.final (h : Inv n a w j offsets T P i (nbrs n a i) s) (hq : s.queue =
 
 end steps
 
+/-! ### the outer loop -/
+
+theorem forward_done (offsets k flat : List Nat) (w : Nat → Rat) (fuel qi : Nat) (s : Fwd)
+    (h : s.queue.length ≤ qi) : forward offsets k flat w fuel qi s = s := by
+  cases fuel with
+  | zero => rfl
+  | succ f => simp only [forward]; rw [if_neg (by omega)]
+
+theorem Inv.init (n : Nat) (a : Adj) (w : Nat → Rat) (j : Nat) (hj : j < n) (offsets : List Nat)
+    (T : Nat) : Inv n a w j offsets T [] j [] (fwdInit n w T j) := by
+  have hd : ∀ v, ((List.replicate n (2 * n)).set j 0).getD v 0
+      = if v = j then 0 else if v < n then 2 * n else 0 := by
+    intro v; rw [getD_set_nat]; grind
+  have hm : ∀ v, ((List.replicate n (0 : Rat)).set j (w j)).getD v 0 = if v = j then w j else 0 := by
+    intro v; rw [getD_set_rat]; grind
+  refine
+    { len_d := by simp [fwdInit]
+      len_np := by simp [fwdInit]
+      len_m := by simp [fwdInit]
+      len_fp := by simp [fwdInit]
+      split := ⟨[], by simp [fwdInit]⟩
+      q_nodup := by simp [fwdInit]
+      q_lt := by simp [fwdInit, hj]
+      q_head := by simp [fwdInit]
+      d_root := by simp only [fwdInit]; rw [hd]; simp
+      d_unv := ?_
+      d_bound := ?_
+      d_next := ?_
+      sorted := by simp [fwdInit]
+      parent := by simp [fwdInit]
+      closed := by simp
+      m_root := by simp only [fwdInit]; rw [hm]; simp
+      m_rec := ?_
+      np := ?_
+      preds := ?_ }
+  · intro v hv hvq
+    simp only [fwdInit, List.mem_singleton] at hvq ⊢
+    rw [hd]; simp [hvq, hv]
+  · intro v hv
+    simp only [fwdInit, List.mem_singleton] at hv ⊢
+    subst hv; rw [hd]; simp
+  · intro v hv
+    simp only [fwdInit, List.mem_singleton] at hv ⊢
+    subst hv; omega
+  · intro l hl hne
+    simp only [fwdInit, recl]
+    rw [hm]; simp [hne]
+  · intro l hl
+    simp [fwdInit, recl]
+    grind
+  · intro l hl
+    simp [fwdInit, recl, slice]
+    grind
+
+/-- **the forward phase**: for every graph given to the kernel through arrays laid out as `Layout`
+demands, with the loop ranges `flat[offsets[i] : offsets[i]+k[i]]` = neighbour lists, the loop
+`while qi < queue_len` started with fuel `≥ n − qi` ends in a state satisfying `FwdFinal` -/
+theorem forward_inv {n : Nat} {a : Adj} {w : Nat → Rat} {j : Nat} {offsets : List Nat} {T : Nat}
+    {K : Nat → Nat} (k flat : List Nat) (lay : Layout n a offsets T K)
+    (hflat : ∀ i, i < n → (flat.drop (offsets.getD i 0)).take (k.getD i 0) = nbrs n a i) :
+    ∀ (fuel : Nat) (P : List Nat) (i : Nat) (s : Fwd), Inv n a w j offsets T P i [] s →
+      n ≤ P.length + fuel → FwdFinal n a w j offsets (forward offsets k flat w fuel P.length s) := by
+  intro fuel
+  induction fuel with
+  | zero =>
+    intro P i s h hn
+    exfalso
+    obtain ⟨r, hr⟩ := h.split
+    have := h.q_len
+    rw [hr] at this
+    simp at this
+    omega
+  | succ f ih =>
+    intro P i s h hn
+    obtain ⟨r, hr⟩ := h.split
+    have hlt : P.length < s.queue.length := by rw [hr]; simp
+    have hi : s.queue.getD P.length 0 = i := by rw [hr]; simp [List.getD]
+    have hin : i < n := h.q_lt i h.i_mem
+    simp only [forward]
+    rw [if_pos hlt, hi, hflat i hin]
+    have h2 := Inv.relax_fold (P := P) (i := i) lay (s.dist.getD i 0 + 1) (nbrs n a i) [] s h
+      (fun l hl => mem_nbrs.mp hl) (by simpa using nbrs_nodup n a i) rfl
+    simp only [List.nil_append] at h2
+    generalize (nbrs n a i).foldl (relax offsets w i (s.dist.getD i 0 + 1)) s = s2 at h2
+    obtain ⟨r2, hr2⟩ := h2.split
+    cases r2 with
+    | nil =>
+      rw [forward_done _ _ _ _ _ _ _ (by rw [hr2]; simp)]
+      exact h2.final hr2
+    | cons i' rest =>
+      have h3 := h2.next hr2
+      have := ih (P ++ [i]) i' s2 h3 (by simp; omega)
+      simpa using this
+
+theorem forward_fwdFinal {n : Nat} {a : Adj} {w : Nat → Rat} {j : Nat} (hj : j < n) {offsets : List Nat}
+    {T : Nat} {K : Nat → Nat} (k flat : List Nat) (lay : Layout n a offsets T K)
+    (hflat : ∀ i, i < n → (flat.drop (offsets.getD i 0)).take (k.getD i 0) = nbrs n a i) :
+    FwdFinal n a w j offsets (forward offsets k flat w n 0 (fwdInit n w T j)) :=
+  forward_inv k flat lay hflat n [] j _ (Inv.init n a w j hj offsets T) (by simp)
+
 end Pyunicorn.NetBetw
